@@ -14,6 +14,7 @@ import itertools
 from hypothesis import strategies as st
 
 from pbt.core import Outcome
+from pbt.props import _decoys
 
 TECHNIQUE = "Hypothesis-generated weighted ballots + exhaustive unweighted ballots against a per-strategy reference criterion (exact rationals) and metamorphic monotonicity relations"
 LEVEL_TEXT = ("Exploration: real QuorumSensing/EmergencyQuorum aggregate ballots cast by stub voters; S1-S7 of DESIGN C06 are checked on every case and on "
@@ -39,6 +40,7 @@ RULE += " Voters whose PERMIT reply cannot be converted into a ballot (confidenc
 RULE += ' S10 mirror image: under the default / >= 1/2 thresholds of the non-count strategies a ballot and its mirror (every PERMIT and BLOCK exchanged) cannot both be PERMIT (decisions within 1e-9 of the threshold left alone).'
 RULE += " An EmergencyQuorum switched to an ordinary strategy with set_strategy() is held to that strategy's criterion (generated 1/8 of the non-emergency cases; enumerated for every two-way ballot of 5..9 voters x 6 strategies)."
 RULE += " Round 7: a `decoy` quorum (0..7 agents, its own strategy / threshold, ordinary or emergency, idle or voting) may be constructed in the same process between building the quorum under test and its vote: a decision depends on its own electorate only."
+RULE += " Round 8 regression: permit/block ballots of 2-3 voters x weights {0.25, 1, 2} x confidences {0.3, 1} are enumerated for WEIGHTED and CONFIDENCE (3744 cases)."
 
 # BADCONF / BADCONF_NONE: the voter answers PERMIT but its reply cannot be converted into a ballot (confidence "high" / None): a failed voter
 KINDS = ["PERMIT", "EXECUTE", "BLOCK", "UNKNOWN", "DEFER", "FAILURE", "RAISE", "BADCONF", "BADCONF_NONE"]
@@ -99,6 +101,8 @@ EXHAUSTIVE_NOTE = {
 def enumerate_cases(tier):
     for case in _two_way_ballots():
         yield case
+    for case in _weighted_table():
+        yield case
     nmax = 6 if tier == "thorough" else 4
     kinds = ["PERMIT", "BLOCK", "UNKNOWN", "DEFER", "RAISE"]
     for n in range(1, nmax + 1):
@@ -113,6 +117,17 @@ def enumerate_cases(tier):
                     yield {"emergency": True, "strategy": 6, "threshold": 0.3, "min_voters": 1, "voters": voters, "hist": h}
                     yield {"emergency": False, "strategy": 6, "threshold": None, "min_voters": 1, "voters": voters, "hist": h}
                     yield {"emergency": False, "strategy": 0, "threshold": None, "min_voters": 1, "voters": voters, "hist": dict(h, detour=6, extra=True)}
+
+
+def _weighted_table():
+    """permit/block ballots of 2..3 voters with every combination of unequal weights and confidences, for the two strategies whose criterion
+    multiplies them in (generated ballots meet a particular weight x confidence pattern only by luck)"""
+    for n in (2, 3):
+        for kinds in itertools.product(["PERMIT", "BLOCK"], repeat=n):
+            for ws in itertools.product([0.25, 1, 2], repeat=n):
+                for cs in itertools.product([0.3, 1], repeat=n):
+                    for s in (3, 4):
+                        yield {"emergency": False, "strategy": s, "threshold": None, "min_voters": 1, "voters": [[k, w, c] for k, w, c in zip(kinds, ws, cs)]}
 
 
 def _two_way_ballots():
@@ -185,7 +200,7 @@ def _run(case, voters, hist=None):
                 prof_.agent = _Stub(prof_.agent.name if hasattr(prof_.agent, "name") else "d", k_, 1)
             try:
                 other.run_vote("decoy proposal")
-            except Exception:  # noqa: BLE001 - the decoy's own configuration may be one the library refuses; only its existence matters
+            except (Exception, _decoys._SelfDeadlock):  # noqa: BLE001 - the decoy's own configuration may be one the library refuses; only its existence matters
                 pass
 
     if not hist:
